@@ -68,6 +68,8 @@ struct MockPS {
     pushed: [u8; MAXD],
     saves: usize,
     restores: usize,
+    // tokens a live token-range lexeme takes by id (symbolic set); taking one is modelled as one accepted step
+    numeric_ok: [bool; V],
 }
 
 struct ParserRecognizer<'a> {
@@ -105,11 +107,18 @@ impl MockPS {
         self.restores += 1;
         self.depth = s;
     }
-    // no token-range lexeme is live (numeric special tokens are outside this harness)
-    fn flush_and_check_numeric(&mut self, _tok: TokenId) -> Option<LexemeIdx> {
-        None
+    // a live token-range lexeme takes the token by id (symbolic set of ids); flushing the lexer has no other effect here
+    fn flush_and_check_numeric(&mut self, tok: TokenId) -> Option<LexemeIdx> {
+        if self.numeric_ok[tok as usize] {
+            Some(LexemeIdx::new(0))
+        } else {
+            None
+        }
     }
     fn add_numeric_token(&mut self, _idx: LexemeIdx, _b: &[u8]) -> core::result::Result<(), ()> {
+        if self.depth < MAXD {
+            self.depth += 1;
+        }
         Ok(())
     }
 }
@@ -147,7 +156,9 @@ fn p01v_body<const NT: usize, const FORCED: usize>() {
         pushed: [0; MAXD],
         saves: 0,
         restores: 0,
+        numeric_ok: kani::any(),
     };
+    kani::assume(!st.numeric_ok[EOS_T as usize]);
     let toks: [TokenId; NT] = kani::any();
     let mut i = 0;
     while i < NT {
@@ -168,6 +179,11 @@ fn p01v_body<const NT: usize, const FORCED: usize>() {
             if t == EOS_T {
                 want = if pos == FORCED && st.accepting_at[depth] { ti + 1 } else { ti };
                 done = true;
+            } else if pos == FORCED && st.numeric_ok[t as usize] {
+                // taken by id by a token-range lexeme: only once nothing forced is pending
+                if depth < MAXD {
+                    depth += 1;
+                }
             } else {
                 let special = pos < FORCED && forced[pos] == TokTrie::SPECIAL_TOKEN_MARKER;
                 let n = if special { 2 } else { lens[t as usize] };
@@ -211,6 +227,7 @@ fn p01v_body<const NT: usize, const FORCED: usize>() {
     kani::cover!(NT < 2 || (got == 1 && toks[1] != EOS_T));
     kani::cover!(NT < 2 || (got == 2 && toks[1] == EOS_T));
     kani::cover!(FORCED == 0 || (got >= 1 && pos == FORCED));
+    kani::cover!(NT < 2 || (got == 2 && st.numeric_ok[toks[1] as usize] && !st.numeric_ok[toks[0] as usize]));
     std::mem::forget(st);
 }
 
@@ -235,6 +252,7 @@ fn p01v_witness_must_fail() {
         pushed: [0; MAXD],
         saves: 0,
         restores: 0,
+        numeric_ok: [false; V],
     };
     let t: TokenId = kani::any();
     kani::assume(t < EOS_T);
